@@ -92,6 +92,15 @@ func lex(s string, pg bool) (out []token, ok bool) {
 			}
 			out = append(out, token{tComment, s[i : i+j]})
 			i += j
+		case c == '#' || (c == '/' && i+1 < n && s[i+1] == '/'):
+			j := strings.IndexByte(s[i:], '\n')
+			if j < 0 {
+				j = n - i
+			} else {
+				j++
+			}
+			out = append(out, token{tComment, s[i : i+j]})
+			i += j
 		case c == '\'':
 			j := scanQuoted(i, '\'', true)
 			out = append(out, token{tString, s[i:j]})
@@ -381,7 +390,7 @@ func applyVariant(s string, pg bool, ops []VarOp) string {
 				default:
 					b := []byte(strings.ToLower(t.text))
 					for j := range b {
-						if j%2 == 0 {
+						if j%2 == 0 && b[j] >= 'a' && b[j] <= 'z' {
 							b[j] -= 32
 						}
 					}
